@@ -153,11 +153,14 @@ def make_binders_unique(a: ast.AST) -> ast.AST:
                 (arg.arg, arg_name() if arg.arg in clashing else arg.arg)
                 for arg in node.args.args
             ]
+            # Default values are evaluated outside the lambda
+            new_defaults = [self.visit(d) for d in node.args.defaults]
             self._stack.extend(mapping)
             new_body = self.visit(node.body)
             del self._stack[len(self._stack) - len(mapping) :]
             new_args = copy.copy(node.args)
             new_args.args = [ast.arg(arg=new, annotation=None) for _, new in mapping]
+            new_args.defaults = new_defaults
             return ast.Lambda(args=new_args, body=new_body)
 
         def visit_Call(self, node: ast.Call):
@@ -525,7 +528,16 @@ class simplify_chained_calls(FuncADLNodeTransformer):
         if type(call_node.func) is ast.Lambda:
             arg_asts = [self.visit(a) for a in call_node.args]
             keyword_asts = {k.arg: self.visit(k.value) for k in call_node.keywords}
+            # Arguments that are not given take the lambda's own default value
+            lambda_args = call_node.func.args
+            n_no_default = len(lambda_args.args) - len(lambda_args.defaults)
+            default_asts = {
+                a_name.arg: self.visit(d)
+                for a_name, d in zip(lambda_args.args[n_no_default:], lambda_args.defaults)
+            }
             with stack_frame(self._arg_stack):
+                for d_name, arg in default_asts.items():
+                    self._arg_stack.define_name(d_name, arg)
                 for a_name, arg in zip(call_node.func.args.args, arg_asts):
                     self._arg_stack.define_name(a_name.arg, arg)
                 for k_name, arg in keyword_asts.items():
